@@ -33,7 +33,7 @@ TRUSTED_BASE = [
     "(generators, printing of the abstract template syntax as Jinja source), the compiled Lean driver",
     "Jinja2 3.1.6 (compiler, Environment._load_template, template cache, auto_reload, FileSystemLoader) — modelled "
     "and differentially checked, not verified",
-    "POSIX stat/utime/open of the sandbox (no symlinks), os.path.normpath/join/abspath modelled concretely",
+    "POSIX stat/utime/open of the sandbox, os.path.normpath/join/abspath modelled concretely",
 ]
 ASSUMPTIONS = [
     "Jinja2's own template cache and auto_reload are modelled, not verified: the model's cache is unbounded (the real "
@@ -48,7 +48,8 @@ ASSUMPTIONS = [
     "the model evaluates an imported template on every import; Jinja2 memoises an imported template's module per "
     "compiled template (Template._get_default_module). Where that makes an edit of a file reached THROUGH an import "
     "invisible the check reports it (recorded finding `import memo`, KNOWN_FINDINGS.txt)",
-    "the working directory does not change during a history; no symlinks; UTF-8 template files",
+    "the working directory does not change during a history; a template file may be a symbolic link to a file in the same "
+    "directory (edits change the target in place), no other links; UTF-8 template files",
     "hash collisions of version_for_file_path (md5/mmh3) are excluded: stamps are compared as such",
     "the python helper is checked with fake modules (strings as attributes) and, for the decision alone, with "
     "arbitrary names through the real _check_access",
